@@ -497,6 +497,45 @@ def _attr_table(node, attrs):
     return None
 
 
+def _only_walked(stmts, name) -> bool:
+    """is the local `name` read, in these statements, as the iterable of a `for` (itself or its .items() / .keys() / .values())?"""
+    for st in stmts:
+        for n in ast.walk(st):
+            if isinstance(n, ast.For):
+                it = n.iter
+                if isinstance(it, ast.Call) and isinstance(it.func, ast.Attribute) and it.func.attr in ("items", "keys", "values") and not it.args and not it.keywords:
+                    it = it.func.value
+                if isinstance(it, ast.Name) and it.id == name:
+                    return True
+    return False
+
+
+def _hoist_computed_entries(st: ast.Assign):
+    """`T = {"a": f(), "b": x}` / `T = [("a", f()), ..]`  ->  [`_tvN = f()`], with the display (edited in place) holding `_tvN` instead: the
+    entries that cannot be copied (calls, comprehensions) are evaluated once, in display order, before the display is built"""
+    pre = []
+
+    def fresh(e):
+        nm = f"_tv{next(_counter)}"
+        pre.append(ast.fix_missing_locations(ast.copy_location(ast.Assign(targets=[ast.Name(id=nm, ctx=ast.Store())], value=e), e)))
+        return ast.copy_location(ast.Name(id=nm, ctx=ast.Load()), e)
+
+    def entries(elts):
+        for i, e in enumerate(elts):
+            if e is None or _pure(e, lambdas=True):
+                continue
+            if isinstance(e, (ast.Tuple, ast.List)) and not any(isinstance(x, ast.Starred) for x in e.elts):
+                entries(e.elts)
+            elif not isinstance(e, ast.Starred):
+                elts[i] = fresh(e)
+    v = st.value
+    if isinstance(v, ast.Dict):
+        entries(v.values)
+    else:
+        entries(v.elts)
+    return pre
+
+
 def _unroll_block(stmts, lits, once=frozenset(), attrs=None, static: bool = False):
     """lits: name -> literal sequence node still valid at this point;  once: the locals read exactly once in the function (only
     those may stand for a one-shot zip / enumerate iterator);  attrs: (receiver, attribute) -> class-level literal table.
@@ -543,6 +582,13 @@ def _unroll_block(stmts, lits, once=frozenset(), attrs=None, static: bool = Fals
             # a local bound to a literal table, or to a class-level / local table under another name (`rows = self._ROWS`); a
             # zip / enumerate of literals is a one-shot iterator: the local stands for its rows only where it is read once
             seq = _literal_table(st.value) or _attr_table(st.value, attrs) or (lits.get(st.value.id) if isinstance(st.value, ast.Name) else None)
+            if seq is not None and isinstance(st.value, (ast.Dict, ast.List, ast.Tuple)) and st.targets[0].id in once \
+                    and not all(_pure(e, lambdas=True) for e in seq.elts) and _only_walked(stmts[stmts.index(st) + 1:], st.targets[0].id):
+                # a display with computed entries (`{"n": len(xs), "t": now()}`) whose only use is a later `for` over it: the computed
+                # entries are bound to fresh locals first, in the order the display evaluates them -- the same values, evaluated once at
+                # the same place, and the display holds names only, so the loop over it can be unrolled like one over a literal table
+                out.extend(_hoist_computed_entries(st))
+                seq = _literal_table(st.value)
             oneshot = isinstance(st.value, ast.Call) and not static
             if seq is None and static:
                 seq = _static_seq(st.value, lits)
@@ -949,6 +995,12 @@ def inline_stmt_calls(func, resolve, max_depth: int = 3):
                 if r is not None and r[0] is not func:
                     callee, recv = r
                     kind = _simple_callee(callee)
+                    if kind is None and isinstance(st, ast.Expr):
+                        # a procedure (no value returned) written with guard clauses -- `if c: ..; return` + REST -- called as a
+                        # whole statement: the same statements as an if / else tree (_tailify), then a straight-line helper
+                        alt = _procedure_without_early_returns(callee)
+                        if alt is not callee and _simple_callee(alt) == "stmts":
+                            callee, kind = alt, "stmts"
                     if kind == "expr":
                         e = inline_expr(callee, c, recv)
                         if e is not None:
